@@ -52,7 +52,12 @@ func randGroup(r *gen.R, p string) []string {
 	case 0, 1, 2:
 		return []string{"none"}
 	case 3:
-		return []string{"parallel"}
+		if r.Bool() {
+			return []string{"parallel"}
+		}
+		// Parallel overrides any Group value, even one that would not parse or names no tag of the pattern
+		tags := append(patTags(p), "nope")
+		return []string{"parallel", r.Pick([]string{"g", "lit.g", "${" + r.Pick(tags) + "}", "x${" + r.Pick(tags) + "}", "${"})}
 	case 4:
 		return []string{"group", r.Pick([]string{"g", "lit.g", "${x}", "${nope}", "${", "$x", "${}", "${x", "a${x}b${y}", "${x}${x}", "${a b}"})}
 	}
